@@ -127,7 +127,8 @@ def gen_world(rng, flavour, tiny=False, allow_running=True, force=None):
     left = ntasks
     gi = 0
     while left > 0:
-        shape = rng.choice(["single", "single", "chain", "join", "fork"])
+        shape = rng.choice(["chain", "join", "fork", "chain", "single"] if force.get("dag") else
+                           ["single", "single", "chain", "join", "fork"])
         n = {"single": 1, "chain": rng.choice([2, 3]), "join": 3, "fork": 3}[shape]
         n = min(n, left)
         names = ["t%d%d" % (gi, k) for k in range(n)]
@@ -347,6 +348,28 @@ def monitor_plans(ctx, worlds, results, tag, fn, what, skip=None):
     return len(cases)
 
 
+def monitor_wf(ctx, worlds, results):
+    """The hypotheses of the theorems (wf_inst, decided by wf_instb) hold of every instance the implementation built."""
+    cases = []
+    where = []
+    for i, (w, r) in enumerate(zip(worlds, results)):
+        if "inst" in r and "unsupported" not in r:
+            cases.append(g_inst(r["inst"]))
+            where.append(i)
+    if not cases:
+        return
+    try:
+        bad = ctx.monitor_stream("M-wf", HEADER, "tinst", "wf_instb", cases)
+        for b in bad[:3]:
+            i = where[b]
+            ctx.violation("wf%d" % i, {"stream": "M-wf", "world": worlds[i], "instance": results[i]["inst"],
+                                       "what": "an instance built by the scheduler is outside the hypotheses of the theorems "
+                                               "(wf_inst: distinct names, non-negative quantities, running tasks fit their workers, "
+                                               "parents known)"})
+    except core.ModelEvalError as e:
+        ctx.broken.append({"kind": "monitor", "name": "M-wf", "detail": str(e)[-800:]})
+
+
 def py_monitor_fallback(ctx, worlds, results):
     """Pure-Python search for a failing input, used when the Coq side is broken: joint capacity at every
     integer instant, deadlines, precedence (chosen runtime), start >= now, one answer per task."""
@@ -493,6 +516,7 @@ def run(ctx):
     scheduler_errors(ctx, worlds, results)
     stream_csys(ctx, worlds, results)
     stream_readback(ctx, worlds, results)
+    monitor_wf(ctx, worlds, results)
     # the live state is untouched
     for i, (w, r) in enumerate(zip(worlds, results)):
         if r.get("state_unchanged") is False:
